@@ -159,6 +159,10 @@ func invoke(fn func() (error, int)) (r callResult) {
 func RunMisuseCell(c *core.Case, cell MisuseCell, res *core.Result) {
 	r := c.R
 	cfg := GenConfig(r, 2)
+	if cell.State == "ro-active-beside-writer" && cfg.MaxPages > 0 && r.Chance(3, 4) {
+		// the writer has to extend the data area: mostly unbounded files
+		cfg.MaxPages, cfg.MaxSizeOdd, cfg.Prealloc = 0, 0, false
+	}
 	mon := Monitors{Property: "C15", Content: true, LockIdle: true}
 	w := NewWorld(cfg, mon, r, res)
 	w.TraceOn = c.Verbose
